@@ -6,9 +6,10 @@
    - reads / writes of the generated code: the access log of Eval.eval_pass (theorems C04_reads_*, C04_*_monitored_eq), tied to
      the code by K (access sequence of every recorded pass) and judged by the oracle on the recorded ndarray accesses;
    - the solver's OWN accesses (get_check_values, offset copy, status / iterations) use the raw t: the model works on normalised
-     positions; C04_solver_own_accesses_no_wrap states that the raw indexes the code hands to NumPy land where the model puts
-     them once the guards have passed; the tie to the code for these accesses is the ORACLE only (every recorded access of the
-     whole call is judged: obs['log']), not K;
+     positions.  C04_solver_own_accesses_no_wrap is DEFINITIONAL — an arithmetic fact about the index list written in its own
+     statement (solve_t_M does not occur in it): it covers no clause by itself.  That these ARE the indexes the code hands to
+     NumPy, and that they do not wrap, is established by the ORACLE only (every recorded access of the whole call is judged:
+     obs['log']), not by a theorem and not by K;
    - Fortran engine: the compiled code's reads cannot be observed (they happen inside gfortran's object code) and FSem.fread is
      totalised, so for this engine "reads never wrap" is covered by the rejection theorems (C04_fortran_infeasible_rejected,
      C04_fortran_evaluate_infeasible_rejected: an infeasible period is never evaluated) and the write frames only;
@@ -145,8 +146,9 @@ Section C04_solver.
     run_periods num sub absf ltb isfin zero ev before after L d o (ps1 ++ (t, lab) :: ps2) s acc = (s1, Raise IndexError).
   Proof. exact (run_periods_first_infeasible num sub absf ltb isfin zero ev before after L d o ps1 t lab ps2 s acc s1 vs). Qed.
 
-  (* the solver's OWN accesses use the raw t (get_check_values, status, iterations: t; offset copy: reads t + offset, writes t):
-     once the offset guards have passed none of them wraps — each is served at the same distance from p inside the span *)
+  (* DEFINITIONAL (covers no clause on its own: see the header): IF the solver's own raw indexes are t (get_check_values, status,
+     iterations) and t + offset / t (offset copy), THEN once the offset guards have passed none of them wraps — each is served
+     at the same distance from p inside the span.  The premise is checked by the oracle on the recorded accesses only. *)
   Theorem C04_solver_own_accesses_no_wrap (o : opts num) n t p :
     py_pos n t = Some p ->
     (offset o = 0 \/ 0 <= Z.of_nat p + offset o < Z.of_nat n) ->
